@@ -112,3 +112,14 @@ Proof.
   - right. eexists. split; [reflexivity|]. split; [reflexivity|]. eexists. split; [left; reflexivity|]. repeat split; vm_compute; reflexivity.
   - intros H. apply C12_contains_is_the_declarative_relation in H; [|reflexivity|reflexivity]. vm_compute in H. discriminate H.
 Qed.
+
+(* M6 (second review): the fuel the model passes is never what decides an answer, on ARBITRARY inputs -- also for the loops
+   whose exhaustion is an ordinary value (None, Ok None, Ok buf, PErr, the input itself), about which `<> Err EFuel` says
+   nothing: any fuel above the one the model passes gives the same answer (FuelIndep.v) *)
+From JB Require FuelIndep.
+Theorem C12_fuel_is_never_decisive :
+  (forall k l r, (length r < k)%nat -> ContainWalk.contains_jsonb_w k l r = ContainWalk.contains_jsonb_w (S (length r)) l r) /\
+  (forall St R bs (step : St -> Codec.je -> list N -> res (St + R)) fin k idx len joff voff s, (length bs < k)%nat -> Iter.arr_fold bs step fin k idx len joff voff s = Iter.arr_fold bs step fin (S (length bs)) idx len joff voff s) /\
+  (forall k bs i len j, (length bs < k)%nat -> Walk.rd_words k bs i len j = Walk.rd_words (S (length bs)) bs i len j).
+Proof. split; [exact FuelIndep.contains_jsonb_w_any_fuel|split; [exact (@FuelIndep.arr_fold_any_fuel)|exact FuelIndep.rd_words_any_fuel]]. Qed.
+Print Assumptions C12_fuel_is_never_decisive.
